@@ -55,6 +55,7 @@ type E7Spec struct {
 	WriteBack     []FuncRuleSpec     `json:"write_back"`
 	Shadow        []FuncRuleSpec     `json:"shadowed_result"`
 	Forbidden     []ForbiddenSpec    `json:"forbidden_calls"`
+	CrossAppend   []FuncRuleSpec     `json:"cross_append"`
 }
 
 type FuncRuleSpec struct {
@@ -204,6 +205,9 @@ func runE7(p *Program, sp *Spec, c *Collector) {
 	}
 	for _, fb := range t.Forbidden {
 		runForbidden(p, c, fb)
+	}
+	for _, ca := range t.CrossAppend {
+		runCrossAppend(p, c, ca)
 	}
 	for _, n := range t.NoExit {
 		runNoExit(p, sp, c, n)
@@ -3627,5 +3631,53 @@ func runForbidden(p *Program, c *Collector, fb ForbiddenSpec) {
 		c.Ob(fb.Props, "E7.forbidden-call", key, Undecided, fb.What+": none of "+strings.Join(fb.Instead, ", ")+" is called any more", p.FuncPos(fn), false)
 	default:
 		c.Ob(fb.Props, "E7.forbidden-call", key, Discharged, fb.What, p.FuncPos(fn), true)
+	}
+}
+
+// ---------------------------------------------------------------------------------------------
+// cross append: `a.List = append(b.List, x)` with a ≠ b grows b's list and files the result under a: a's own entries are
+// replaced by b's (plus x) — the member classes of a type were stored as "the member's own members plus the member", so every
+// further member nested all earlier ones again and the model doubled with each of them.
+func runCrossAppend(p *Program, c *Collector, a FuncRuleSpec) {
+	for _, fn := range expandFuncs(p, c, a.Funcs, a.Props...) {
+		var bad ssa.Instruction
+		what := ""
+		for _, b := range fn.Blocks {
+			for _, in := range b.Instrs {
+				st, ok := in.(*ssa.Store)
+				if !ok || bad != nil {
+					continue
+				}
+				call, ok := st.Val.(*ssa.Call)
+				if !ok {
+					continue
+				}
+				if bi, ok := call.Call.Value.(*ssa.Builtin); !ok || bi.Name() != "append" || len(call.Call.Args) == 0 {
+					continue
+				}
+				dst, ok1 := st.Addr.(*ssa.FieldAddr)
+				ld, ok2 := call.Call.Args[0].(*ssa.UnOp)
+				if !ok1 || !ok2 {
+					continue
+				}
+				src, ok := ld.X.(*ssa.FieldAddr)
+				if !ok || src.Field != dst.Field || fieldFullName(src.X.Type(), src.Field) != fieldFullName(dst.X.Type(), dst.Field) {
+					continue
+				}
+				// the same field of two different records?
+				sf := newSymFn(p, fn, 0)
+				sf.inlineOK = func(*ssa.Function) bool { return false }
+				if d, s2 := sf.val(dst.X).String(), sf.val(src.X).String(); d != s2 {
+					bad = in
+					what = fieldFullName(dst.X.Type(), dst.Field) + ": " + clip(d, 60) + " receives append(" + clip(s2, 60) + ", …)"
+				}
+			}
+		}
+		key := "crossappend:" + p.FuncKey(fn)
+		if bad != nil {
+			c.Ob(a.Props, "E7.cross-append", key, Violated, a.What+": "+what+": the list of one record is grown and filed under another, whose own entries are replaced", p.InstrPos(bad), false)
+		} else if !strings.Contains(fn.Name(), "$") {
+			c.Ob(a.Props, "E7.cross-append", key, Discharged, "every append is stored back into the list it extends", p.FuncPos(fn), true)
+		}
 	}
 }
